@@ -128,6 +128,26 @@ contains
   end subroutine scale_it
 end module alib6
 """,
+    # public entities without any documentation: with hide_undoc they have no page in A's documentation, but they are still distinct entities
+    "src/alib7.f90": """module alib7
+  !! seventh library module
+  implicit none
+  type ua_t
+    integer :: ca
+  end type ua_t
+  type ub_t
+    integer :: cb
+  end type ub_t
+  type uc_t
+    integer :: cc
+  end type uc_t
+contains
+  subroutine ua_sub()
+  end subroutine ua_sub
+  subroutine ub_sub()
+  end subroutine ub_sub
+end module alib7
+""",
     # a module that re-exports entities of the first under new names
     "src/alib4.f90": """module alib4
   !! fourth library module
@@ -141,10 +161,24 @@ A_PUBLIC = {"alib": {"pub_procs": {"asub", "afun", "agen", "area"}, "pub_types":
             "alib3": {"pub_procs": {"asub"}, "pub_types": {"shape_t"}, "pub_vars": set(), "pub_absints": set()},
             "alib4": {"pub_procs": {"api_sub"}, "pub_types": {"packet"}, "pub_vars": set(), "pub_absints": set()},
             "alib5": {"pub_procs": {"unit_length", "scale_it"}, "pub_types": set(), "pub_vars": set(), "pub_absints": set()},
-            "alib6": {"pub_procs": {"scale_it"}, "pub_types": set(), "pub_vars": set(), "pub_absints": set()}}
+            "alib6": {"pub_procs": {"scale_it"}, "pub_types": set(), "pub_vars": set(), "pub_absints": set()},
+            "alib7": {"pub_procs": {"ua_sub", "ub_sub"}, "pub_types": {"ua_t", "ub_t", "uc_t"}, "pub_vars": set(), "pub_absints": set()}}
 # text found only on the page of A that documents (module, entity)
 A_MARK = {("alib6", "scale_it"): "scale_it of alib6", ("alib", "shape_t"): "public type", ("alib3", "shape_t"): "another shape_t of alib3", ("alib", "asub"): "public subroutine", ("alib3", "asub"): "another asub of alib3"}
 
+B8_SRC = """module bmod8
+  !! uses the undocumented entities of alib7
+  use alib7
+  implicit none
+  type(uc_t) :: x8c
+  type(ub_t) :: x8b
+  type(ua_t) :: x8a
+contains
+  subroutine caller8()
+    call ub_sub()
+  end subroutine caller8
+end module bmod8
+"""
 B3_SRC = """module bmod3
   !! B's second module uses the third library module {refs3}
   use alib3
@@ -388,6 +422,7 @@ def run_history(st: Stats, case):
         b_files = {"src/bmod.f90": B_SRC.format(usemod="alib", refs=reftext)}
         reftext3 = {"none": "", "plain": "", "ext": "see [[alib3(extmodule)]]"}[refs]
         b_files["src/bmod3.f90"] = B3_SRC.format(refs3=reftext3)
+        b_files["src/bmod8.f90"] = B8_SRC
         if clash:
             b_files["src/own.f90"] = CLASH_SRC[clash]
         externals = {"alib": ext, "alib_again": ext} if hist == "two-names" else {"alib": ext}
@@ -465,6 +500,16 @@ def run_history(st: Stats, case):
                     bad += 1
                     st.violation("external-entity-of-wrong-module" if wrong else "external-entity-not-linked", stratum, dict(feats, entity=key[1], page=page, module=key[0]), inp,
                                  dict(page=page, links_to=wrong or "nothing in A"), f"the page of {key[0]}'s {key[1]}")
+        if damage is None:
+            # distinct external entities stay distinct, with or without a page of their own in A
+            m8 = [m for m in b.project.modules if m.name == "bmod8"]
+            got8 = {v.name: (getattr(v.proto[0], "name", v.proto[0]) or "").lower() if v.proto else None for v in (m8[0].variables if m8 else [])}
+            calls8 = sorted((getattr(c, "name", c) or "").lower() for p in (m8[0].subroutines if m8 else []) for c in p.calls)
+            want8 = {"x8a": "ua_t", "x8b": "ub_t", "x8c": "uc_t"}
+            if got8 != want8 or calls8 != ["ub_sub"]:
+                bad += 1
+                st.violation("external-entity-of-wrong-module", stratum, dict(feats, entity="alib7", page="module/bmod8.html", module="alib7"), inp,
+                             dict(types=got8, calls=calls8), dict(types=want8, calls=["ub_sub"]))
         if damage is None and not clash:
             expect = ["alib", "shape_t"] + (["asub"] if refs != "none" else [])  # calls are only shown in graphs
             missing = [n for n in expect if n not in linked_names]
